@@ -1392,6 +1392,16 @@ ares_status_t ares_send_query(ares_server_t *requested_server,
 
   query->conn = conn;
 
+  /* A query placed on a connection that was already open changes no socket
+   * interest, so nothing else tells an event thread - possibly sleeping
+   * without any deadline on an idle kept-open connection - that there is a
+   * timeout to honour now.  Have it look again when this query's deadline
+   * became the earliest one. */
+  if (ares_slist_node_first(channel->queries_by_timeout) ==
+      query->node_queries_by_timeout) {
+    ares_event_thread_timeout_changed(channel);
+  }
+
   /* We just successfully enqueud a query, see if we should probe downed
    * servers. */
   if (probe_downed_server) {
